@@ -39,7 +39,7 @@ def rand_set(r, n):
         feats.append({"id": "f%d" % i, "seqid": r.choice(["chr1", "Chr1", "chr10", "chr2", "chrÉ", "chré", "CHR1", "2L"]),
                       "source": r.choice(["a", "B", "10", "9", "é"]), "ftype": r.choice(["gene", "exon", "CDS", "Gene", "mRNA"]),
                       "start": start, "end": end, "score": r.choice([".", "10", "9", "0.5", "1e3"]),
-                      "strand": r.choice(["+", "-", "."]), "frame": r.choice([".", "0", "1", "2"]),
+                      "strand": r.choice(["+", "-", ".", "+", "-", "?", "1"]), "frame": r.choice([".", "0", "1", "2"]),
                       "extra": [] if r.random() < 0.7 else [r.choice(["x", "y", "10"])],
                       "note": r.choice(["a", "b", "Z", "é"])})
     return feats
@@ -365,7 +365,7 @@ def run(ctx):
         nq = 40 if not ctx.thorough else 80
         for qi in range(nq):
             ft = r.choice([None, None, "exon", "gene", ["exon", "CDS"], ("gene", "Gene"), ["absent"], []])
-            strand = r.choice([None, None, "+", "-", "."])
+            strand = r.choice([None, None, "+", "-", ".", "?", "1"])
             form = r.choice(["str", "tuple1", "pair", "none", "list1"])
             cols = [] if form == "none" else ([r.choice(COLUMNS)] if form != "pair" else r.sample(COLUMNS, 2))
             if qi < len(COLUMNS):
